@@ -499,7 +499,7 @@ PLANS["C05"] = {
                  R("codec", "asan", mode="random", prod_cases=40000, tiny_cases=400000),
                  R("stream", "asan", mode="chunker,reader", chunk_cases=600000, reader_cases=400000),
                  R("readn", "asan", script_len=4, wrapper_script_len=3, cases=100000),
-                 R("iovec", "memcheck", cases=6000, focus="C05", timeout=6000),
+                 R("iovec", "memcheck", cases=6000, focus="C05", handoffs=160, mt_rounds=1, timeout=6000),
                  R("codec", "memcheck", mode="random", prod_cases=600, tiny_cases=6000, timeout=6000),
                  R("stream", "memcheck", mode="chunker,reader", chunk_cases=6000, reader_cases=6000, timeout=6000),
                  R("iovec", "miri", cases=320, focus="C05", ops=60, timeout=6000, miriflags=MIRI_NOSB),
